@@ -192,7 +192,18 @@ def rtModel (ty : String) (b : Bytes) : Option (Res Bytes) :=
     | _ => none
 
 /-- outcome class of decoding (C03) for the decoders that have a Lean model -/
-def totModel (ty : String) (b : Bytes) : Option String :=
+def resClass {α} : Res α → String
+  | .ok _ => "ok" | .err => "err" | .panic => "panic"
+
+/-- the dialect named at the end of a context like `v2013/HLJ` -/
+def dialectOfCtx (ctx : String) : AttStream.Dialect :=
+  AttStream.dialectOf (match (ctx.splitOn "/").getLast? with
+    | some "JS" => 1 | some "HLJ" => 2 | some "GD" => 3 | some "HN" => 4 | some "SC" => 5 | _ => 1)
+
+def totModel (ty : String) (ctx : String) (b : Bytes) : Option String :=
+  if ty == "T0x1210" then some (resClass (AttStream.parse1210 (dialectOfCtx ctx) b))
+  else if ty == "T0x1211" || ty == "T0x1212" then some (resClass (AttStream.parse1211 b))
+  else
   match rtModel ty b with
   | some (.ok _) => some "ok"
   | some .err => some "err"
@@ -532,10 +543,10 @@ def runOp (op : String) (args : List String) : String :=
         | "jt808.JTMessage" => (match Frame.decode b with | .ok _ => "ok" | .err => "err" | .panic => "panic")
         | "jt1078.Packet" => (match Rtp.decode b with | .ok _ => "ok" | _ => "err")
         | _ => "skip"
-  | "tot", ty :: _ctx :: body :: _ =>
+  | "tot", ty :: ctx :: body :: _ =>
     match ofHex body with
     | none => "bad-op"
-    | some b => (totModel ty b).getD "skip"
+    | some b => (totModel ty ctx b).getD "skip"
   | "race", [_variant, _workers, _rounds, _seed] => "races=0"   -- C18: what the field-partition and hand-over theorems predict
   | "astream", [astype, _cut, stream] =>
     match astype.toNat?, ofHex stream with
